@@ -1,3 +1,5 @@
+import math
+
 from xdsl.dialects import arith, builtin
 from xdsl.dialects.builtin import BoolAttr, IndexType, IntegerType
 from xdsl.ir import OpResult
@@ -77,7 +79,12 @@ def _fold_const_operation(
                 val = lhs.value.data / rhs.value.data
         case _:
             return
-    return arith.ConstantOp(builtin.FloatAttr(val, lhs.type))
+    try:
+        attr = builtin.FloatAttr(val, lhs.type)
+    except OverflowError:
+        # The exact result is too large for the type, it rounds to infinity.
+        attr = builtin.FloatAttr(math.copysign(math.inf, val), lhs.type)
+    return arith.ConstantOp(attr)
 
 
 class FoldConstConstOp(RewritePattern):
